@@ -1,6 +1,7 @@
 (* model / spec driver for component Hash (C02).
    case header:  case <n> <hm|hs|pm> <i|l|s> <cap0> <cap1> ...   (one container variable per capacity)
-   keys: decimal for the integer key types (i = int32, l = int64), lower-case hex bytes for String ("-" = empty). *)
+   keys: decimal for the integer key types (i = int32, l = int64, u = uint32, p = const void* as its address),
+   lower-case hex bytes for String ("-" = empty). *)
 open Model
 open Zconv
 
@@ -87,7 +88,8 @@ let () =
           (if mode = "model" then model_runner pk_str show_str bytes_eqb hash_str kd caps
            else spec_runner pk_str show_str bytes_eqb kd caps)
         else
-          (if mode = "model" then model_runner pk_int show_int Z.eqb hash_int kd caps
+          (* i = int32, l = int64, u = uint32: hash = (usize)v;  p = const void*: hash = address >> 3 *)
+          (if mode = "model" then model_runner pk_int show_int Z.eqb (if kt = "p" then hash_ptr else hash_int) kd caps
            else spec_runner pk_int show_int Z.eqb kd caps)
     | _ -> failwith "case header: case <n> <hm|hs|pm> <i|l|s> <caps…>" in
   run_cases file on_case (fun r _ toks -> r.step_line toks; r) (fun _ -> ())
